@@ -235,7 +235,7 @@ func (r *rig) sample(rnd *rand.Rand, code uint64) []byte {
 	}
 	switch code {
 	case cHandshake:
-		return r.msgHandshake(rnd, mk("net", "ok", "genesis", "ok", "oldgen", "absent", "ts", "now", "ver", "ok"))
+		return r.msgHandshake(rnd, mk("intgen", "none", "net", "ok", "genesis", "ok", "oldgen", "absent", "ts", "now", "ver", "ok"))
 	case cProposeBlock:
 		b, _ := r.msgProposeBlock(rnd, mk("data", "present", "hdr", "proposed", "body", "empty", "sig", "proposer", "proof", "valid", "height", "round"))
 		return b
@@ -293,11 +293,24 @@ func prepMsg(c *Case, r *rig, rnd *rand.Rand) *prepared {
 	var after func() (string, string) // what the node does next with an accepted object
 	switch code {
 	case cHandshake:
-		payload = r.msgHandshake(rnd, c)
+		// "intgen = has": the receiving node has an intermediate genesis - the two assignments AddBlock performs
+		// for a NewGenesis block (and AtomicSwitchToPreliminary / InitializeChain for a synced or restarted node)
+		withGenesis := func(f func()) {
+			gi := r.n.Chain.GenesisInfo()
+			g, o := gi.Genesis, gi.OldGenesis
+			if c.s("intgen") == "has" {
+				gi.OldGenesis, gi.Genesis = gi.Genesis, r.tpl.head
+			}
+			defer func() { gi.Genesis, gi.OldGenesis = g, o }()
+			f()
+		}
+		withGenesis(func() { payload = r.msgHandshake(rnd, c) })
 		raw := protocol.VerifLenPrefixed(frameNatural(code, payload))
 		p.frame = int64(len(raw))
-		p.exec = func() (string, string) {
-			if err := r.peer.ReadStatus(raw); err != nil {
+		p.exec = func() (verdict string, detail string) {
+			var err error
+			withGenesis(func() { err = r.peer.ReadStatus(raw) })
+			if err != nil {
 				if strings.HasPrefix(err.Error(), "can't decode") {
 					return "rejectDecode", err.Error()
 				}
@@ -540,12 +553,20 @@ func (r *rig) msgHandshake(rnd *rand.Rand, c *Case) []byte {
 		q.Genesis = r.n.Chain.GenesisInfo().Genesis.Hash().Bytes()
 	case "wrong":
 		q.Genesis = rbytes(rnd, 32)
+	case "ownold":
+		q.Genesis = r.n.Chain.GenesisInfo().OldGenesis.Hash().Bytes()
 	}
 	switch c.s("oldgen") {
 	case "ok":
 		q.OldGenesis = rbytes(rnd, 32)
 	case "long":
 		q.OldGenesis = rbytes(rnd, 100)
+	case "owngen":
+		q.OldGenesis = r.n.Chain.GenesisInfo().Genesis.Hash().Bytes()
+	case "ownold":
+		q.OldGenesis = r.n.Chain.GenesisInfo().OldGenesis.Hash().Bytes()
+	case "zero":
+		q.OldGenesis = make([]byte, 32)
 	}
 	switch c.s("ts") {
 	case "now":
